@@ -326,7 +326,7 @@ def readLinearTerms (n : Nat) (silent : Bool) : P Unit :=
 
 /-- `NLReader::ReadLinearExpr<LinearHandler>()` (`isObj`: `ObjHandler`, else `AlgebraicConHandler`) -/
 def readLinearExpr (isObj : Bool) : P Unit := do
-  let index ← readUIntUB cx (if isObj then cx.h.num_objs else cx.h.num_algebraic_cons)
+  let index ← readUIntUB cx (Site.itemsSeg cx.h (if isObj then 71 else 74))   -- LinearHandler::num_items()
   let n ← readUIntLU cx Site.lbTerms (Site.ubTerms cx.h)
   eol cx
   if isObj && !cx.needObj index then readLinearTerms cx n true
@@ -339,7 +339,7 @@ def readBounds (isCon : Bool) : P Unit := do
   eol cx
   let inf : F64 := F64.inf
   let ninf : F64 := F64.inf + 2 ^ 63
-  forN (if isCon then cx.h.num_algebraic_cons else cx.h.num_vars) 0 fun i => do
+  forN (Site.itemsSeg cx.h (if isCon then 114 else 98)) 0 fun i => do    -- BoundHandler::num_items()
     let c ← rdChar cx
     let finish (lb ub : F64) : P Unit := do
       eol cx
@@ -381,7 +381,7 @@ def readColumnSizes (cumulative : Bool) : P Unit := do
 
 /-- `NLReader::ReadInitialValues<ValueHandler>()` (`isCon`: dual values) -/
 def readInitialValues (isCon : Bool) : P Unit := do
-  let numItems := if isCon then cx.h.num_algebraic_cons else cx.h.num_vars
+  let numItems := Site.itemsSeg cx.h (if isCon then 100 else 120)   -- ValueHandler::num_items()
   let n ← rdUInt cx
   if G.tooManyInit n numItems then fail cx .manyinit else do
   eol cx
@@ -397,7 +397,7 @@ def readSuffix : P Unit := do
   if G.badSuffixKind info then fail cx .sufkind else do
   let kind := info % 4
   -- ConHandler::num_items() cannot overflow (ReadHeader checks the sum); ReadUInt(1, num_items + 1u)
-  let numItems := cx.h.suffixItems kind
+  let numItems := Site.itemsSuffix cx.h kind   -- ItemInfo::num_items()
   let n ← readUIntLU cx 1 (numItems + 1)
   let name ← rdName cx
   eol cx
